@@ -481,6 +481,91 @@ def gen_shared_case(rng, idx):
                 mutation='shared-subterms', two=rng.random() < 0.25)
 
 
+def gen_long_case(rng, idx, n=None):
+    """A LONG valid trace that keeps re-using one substitution: rules u(X)=>v(X), v(X)=>u(X) applied n times on u(c),
+    then a third rule used for the first time at the very end.  The module has 4 own axioms whatever n is (the
+    functional assumption of `c` and the three rules), so every Load index stays small; the serialisation must exist and
+    be accepted.  Cheap: three rules, tiny patterns."""
+    n = n or rng.choice([300, 300, 260, 340])
+    n -= n % 2
+    names = rng.sample(['c', 'f', 'g', 'h', 'u', 'v', 'w', 'k'], 4)
+    cn, fn_, gn, hn = names
+    sorts = [rng.choice(SORT_POOL[:6])]
+    syms = [dict(name=cn, npar=0, narg=0, fn=True, cell=False, ctor=True)] + \
+           [dict(name=x, npar=0, narg=1, fn=True, cell=rng.random() < 0.3, ctor=True) for x in (fn_, gn, hn)]
+    rng.shuffle(syms)
+    sig = (sorts, syms)
+    s = ('a', sorts[0])
+    X = ('E', 'X', s)
+    c = app(cn)
+    rules_lr = [(app(fn_, [X]), app(gn, [X])), (app(gn, [X]), app(fn_, [X])), (app(fn_, [X]), app(hn, [X]))]
+    order = [0, 1, 2]
+    rng.shuffle(order)
+    axioms, kinds, rules, ordinal = [], [], {}, {}
+    for i in order:
+        ordinal[i] = len(axioms)
+        rules[len(axioms)] = rules_lr[i]
+        axioms.append(rule_axiom(rng, sig, s, rules_lr[i][0], rules_lr[i][1]))
+        kinds.append('rw')
+    items = []
+    for i in range(n):
+        items.append(('R', ordinal[i % 2], [('X', c)]))
+        items.append(('C', app(gn if i % 2 == 0 else fn_, [c])))
+    items.append(('R', ordinal[2], [('X', c)]))
+    items.append(('C', app(hn, [c])))
+    return dict(idx=idx, sig=sig, axioms=axioms, kinds=kinds, init=app(fn_, [c]), items=items, rules=rules,
+                mutation='long-trace-%d' % (n + 1), two=False)
+
+
+def krename(k, ren):
+    if k[0] == 'E':
+        return ('E', ren.get(k[1], k[1]), k[2])
+    return ('N', k[1], k[2], [krename(a, ren) for a in k[3]])
+
+
+def rename_case(case, ren, idx):
+    """the same definition and trace with the rule variables renamed (a permutation of the names): valid whenever
+    `case` is, but every rule's scope numbers the names differently"""
+    c = dict(case)
+    c['idx'] = idx
+    c['axioms'] = [krename(a, ren) for a in case['axioms']]
+    c['rules'] = {o: (krename(l, ren), krename(r, ren)) for o, (l, r) in case['rules'].items()}
+    c['items'] = [('R', it[1], [(ren.get(x, x), v) for x, v in it[2]]) if it[0] == 'R' else it for it in case['items']]
+    c['mutation'] = case['mutation'] + '/renamed'
+    return c
+
+
+def def_line(ident, case):
+    return ' '.join(['DEF2' if case.get('two') else 'DEF', ident, tok_sig(case['sig']), str(len(case['axioms']))]
+                    + [tok(a) for a in case['axioms']])
+
+
+def use_line(ident, case):
+    return ' '.join(['USE', ident, tok(case['init']), str(len(case['items']))] + [tok_item(i) for i in case['items']])
+
+
+def gen_session(rng, sid):
+    """2-3 definitions alive in ONE runner process, built and used interleaved (build A, build B, use A, ...): every
+    answer must be what the definition gives alone.  B is A with the rule variables permuted, so that the same ordinals
+    carry the same names in a different numbering; C is unrelated."""
+    a = gen_shared_case(rng, 0)
+    names = sorted({x for ax, k in zip(a['axioms'], a['kinds']) if k == 'rw' for x in evars(rule_of_axiom(ax))})
+    perm = names[1:] + names[:1] if rng.random() < 0.5 else list(reversed(names))
+    b = rename_case(a, dict(zip(names, perm)), 1)
+    defs = {'A': a, 'B': b}
+    script = [('DEF', 'A'), ('DEF', 'B'), ('USE', 'A'), ('USE', 'B')]
+    if rng.random() < 0.5:
+        defs['C'] = gen_trace_case(rng, 2) if rng.random() < 0.5 else gen_shared_case(rng, 2)
+        script += [('DEF', 'C'), ('USE', 'A'), ('USE', 'C'), ('USE', 'B')]
+    if rng.random() < 0.3:
+        script += [('DEF', 'A'), ('USE', 'B'), ('USE', 'A')]
+    out = []
+    for cmd, d in script:
+        ident = 's%d%s' % (sid, d)
+        out.append((cmd, defs[d], def_line(ident, defs[d]) if cmd == 'DEF' else use_line(ident, defs[d])))
+    return out
+
+
 def rules_line(sig, axioms, two=False):
     return ' '.join(['RULES2' if two else 'RULES', tok_sig(sig), str(len(axioms))] + [tok(a) for a in axioms])
 
@@ -954,6 +1039,10 @@ def oracle_trace(case, impl, conv):
         concs = split_list(impl['res'], 'P')
         if concs != claims:
             probs.append(('proofs-do-not-conclude-claims', 'conclusions of proof expressions differ from claims'))
+        axs = split_list(impl['res'], 'A')
+        if len(set(axs)) != len(axs):
+            probs.append(('duplicate-axioms-in-module', 'the module publishes the same axiom more than once (%d axioms, %d distinct): '
+                          'every published axiom takes one of the 256 memory slots a Load can address' % (len(axs), len(set(axs)))))
         # chaining, judged on the printed claims only
         prev = conv(case['init'])
         prev = parse_prefix(prev) if prev else None
@@ -999,6 +1088,8 @@ def run(tier, seed):
     n_cv = 500 if tier == 'quick' else 50000
     n_hi = 300 if tier == 'quick' else 25000
     n_sh = 80 if tier == 'quick' else 5000
+    n_long = 2 if tier == 'quick' else 12
+    n_ses = 30 if tier == 'quick' else 1500
 
     P = R.proof_stage()
     proof_broken = not P['ok']
@@ -1034,6 +1125,7 @@ def run(tier, seed):
         cases.append(gen_trace_case(rng, i))
     shared = [gen_shared_case(rng, i) for i in range(n_sh)]
     cases += shared
+    cases += [gen_long_case(rng, i, 300 if i == 0 else None) for i in range(n_long)]
     # the same axioms through ONE LanguageSemantics in the given order, in reversed order, and each rewrite axiom alone
     rules_reqs = []          # (case, order(list of original positions), line)
     for c in shared:
@@ -1183,6 +1275,76 @@ def run(tier, seed):
                                  line2=seen_rule[key][1], ordinal2=seen_rule[key][2], answer2=short(seen_rule[key][0], 1200),
                                  model=short(model[base + k], 1500)))
 
+    # ---- sessions: several definitions alive in one runner process, built and used interleaved
+    sessions = [gen_session(rng, i) for i in range(n_ses)]
+    groups = [[] for _ in range(min(8, max(1, n_ses)))]
+    for i, ses in enumerate(sessions):
+        groups[i % len(groups)].append(ses)
+    from concurrent.futures import ThreadPoolExecutor
+
+    def run_group(g):
+        ls = [ln for ses in g for (_, _, ln) in ses]
+        out, errs_ = run_impl(ls, chunks=1)
+        return out
+
+    with ThreadPoolExecutor(max_workers=len(groups)) as ex:
+        gouts = list(ex.map(run_group, groups))
+    ses_impl = {}
+    for g, out in zip(groups, gouts):
+        k = 0
+        for ses in g:
+            for (_, _, ln) in ses:
+                ses_impl[ln] = out[k]
+                k += 1
+    all_ses_lines = [ln for ses in sessions for (_, _, ln) in ses]
+    ses_model = dict(zip(all_ses_lines, C.run_lines(mlref, all_ses_lines))) if ok else {}
+    # reference conversions for the oracle, and the same (definition, trace) alone in a FRESH process (a subset)
+    want2 = {}
+    for ses in sessions:
+        for cmd, c, ln in ses:
+            if cmd == 'USE':
+                for (o, order, _cfg) in processed_steps(c['items']):
+                    if o < len(c['kinds']) and c['kinds'][o] == 'rw':
+                        theta = dict(order)
+                        rule = rule_of_axiom(c['axioms'][o])
+                        if set(evars(rule)) <= set(theta) and all(x in evars(rule) for x in theta):
+                            want2[conv_line(c['sig'], ksubst(theta, rule))] = None
+                want2[conv_line(c['sig'], c['init'])] = None
+    w2 = [l for l in want2 if l not in want]
+    w2res, _ = run_impl(w2)
+    for l, r in zip(w2, w2res):
+        want[l] = r['res'][3:].split(' | ')[0] if r['res'].startswith('OK ') else None
+    fresh_budget = 24 if tier == 'quick' else 200
+    fresh_jobs = []
+    for ses in sessions:
+        for cmd, c, ln in ses:
+            if cmd == 'USE' and len(fresh_jobs) < fresh_budget:
+                fresh_jobs.append((ln, gen_line(c)))
+    with ThreadPoolExecutor(max_workers=C.NCPU) as ex:
+        fresh_out = list(ex.map(lambda j: run_impl([j[1]], chunks=1)[0][0], fresh_jobs))
+    fresh = {ln: (gl, o) for (ln, gl), o in zip(fresh_jobs, fresh_out)}
+    for ses in sessions:
+        lines_ses = [ln for (_, _, ln) in ses]
+        for k, (cmd, c, ln) in enumerate(ses):
+            im = ses_impl[ln]
+            R.case(ln, True, 'session-' + cmd + ':' + im['res'][:2].strip())
+            if ok and ses_model.get(ln) != im['res']:
+                mismatches.append(dict(line=ln, session=lines_ses[:k + 1], impl=short(im['res'], 2000),
+                                       model=short(ses_model.get(ln, ''), 2000), exc=im.get('exc')))
+            if cmd != 'USE':
+                continue
+            probs, expect, why = oracle_trace(c, im, lambda t, c=c: want.get(conv_line(c['sig'], t)))
+            if ln in fresh and fresh[ln][1]['res'] != im['res']:
+                probs.append(('answer-depends-on-other-definitions',
+                              'a definition used after another definition was built in the same process gives a different '
+                              'answer than alone in a fresh process'))
+            for sig_, desc in probs:
+                R.violation(sig_, desc, dict(session=lines_ses[:k + 1], line=ln, mutation='session/' + c['mutation'],
+                                             expectation=expect, why=why, impl=short(im['res'], 2500), exc=im.get('exc'),
+                                             fresh_line=fresh.get(ln, (None,))[0],
+                                             fresh=short(fresh[ln][1]['res'], 2500) if ln in fresh else None,
+                                             model=short(ses_model.get(ln, ''), 2500)))
+
     # ---- refutation witnesses of Props/C20.v replayed on the implementation (known findings / fixed defects)
     judge_witnesses(R, corpus_lines, impl[:nc])
 
@@ -1200,7 +1362,7 @@ def run(tier, seed):
     elif mismatches:
         R.notes.append(f'{len(mismatches)} model/implementation mismatches, first: {json.dumps(mismatches[0])[:1500]}')
 
-    R.coverage['rule'] = ('SHARED: 2-5 rules sharing non-ground application subterms (variables at different first-occurrence positions), axioms in random order, chained trace through all of them; RULES: the same axioms through one LanguageSemantics in 3 orders and singly, answers must agree per axiom. GEN: random signature (1-4 sorts; 4-10 symbols, 0-3 arguments, 0-2 sort parameters, cells, kseq), '
+    R.coverage['rule'] = ('LONG: 300-step traces re-using one substitution, a rule first used at the end (module must stay at 4 axioms, serialise, be accepted). SESSION: 2-3 definitions (A, A with permuted variable names, an unrelated one) built and used interleaved in one runner process; answers = model = the definition alone in a fresh process. SHARED: 2-5 rules sharing non-ground application subterms (variables at different first-occurrence positions), axioms in random order, chained trace through all of them; RULES: the same axioms through one LanguageSemantics in 3 orders and singly, answers must agree per axiom. GEN: random signature (1-4 sorts; 4-10 symbols, 0-3 arguments, 0-2 sort parameters, cells, kseq), '
                           'rules obtained by anti-unifying the current configuration, ground substitutions, traces of 0-8 steps, '
                           '45% with one deliberate perturbation; distinct = distinct request line; non-trivial = at least one claim or refused. '
                           'CONV: random Kore terms over every constructor, 30% from a malformed stream; non-trivial = more than one node')
@@ -1251,6 +1413,19 @@ def replay(path):
         print(json.dumps(rp, indent=1)[:4000])
         return 0
     ok, log, mlref = build()
+    if rp.get('session'):
+        # the whole prefix of the session in ONE process, then the same (definition, trace) alone in a fresh one
+        impl, _ = run_impl(rp['session'], chunks=1)
+        mo = C.run_lines(mlref, rp['session']) if ok else []
+        for k, (ln, im) in enumerate(zip(rp['session'], impl)):
+            print('session[%d] :' % k, short(ln, 300))
+            print('   impl     :', short(json.dumps(im), 1500 if k == len(impl) - 1 else 200))
+            if ok:
+                print('   model    :', short(mo[k], 1500 if k == len(impl) - 1 else 200))
+        if rp.get('fresh_line'):
+            fr, _ = run_impl([rp['fresh_line']], chunks=1)
+            print('alone, fresh process:', short(json.dumps(fr[0]), 1500))
+        return 0
     lines = [line] + ([rp['line2']] if rp.get('line2') else [])
     impl, _ = run_impl(lines, chunks=1)
     for ln, im in zip(lines, impl):
